@@ -31,7 +31,7 @@ def run_prop(prop, tier, seed):
     rnd.shuffle(behs)
     extra_cfg = {"C01": "SnoopyCallGenErrno.cfg", "C04": None, "C16": None}[prop]
     must = []
-    for cfgname in ([extra_cfg] if extra_cfg else []) + (["SnoopyCallGenSyslog.cfg", "SnoopyCallGenBig.cfg"] if prop == "C04" else []):
+    for cfgname in ([extra_cfg] if extra_cfg else []) + (["SnoopyCallGenSyslog.cfg", "SnoopyCallGenBig.cfg"] if prop == "C04" else ["SnoopyCallGenBig.cfg"] if prop == "C01" else []):
         ge = c.run_tlc("SnoopyCallMC.tla", cfgname)
         rep.tlc(ge)
         must += [json.loads(x)[0] for x in ge.printed]
